@@ -11,12 +11,16 @@ Driver ops of the connection / client / STOMP receivers (C05, FV.Model.Receivers
   htc <c|o> <limit> <method> <status> <body> <decoded|!>
                             FStandardClient.Call / Oneway over fHTTPTransport (the model sees status + decoded)
 
+  big <entry> <limit> <scenario> <cid-len> <opid-len> <writes> <fallback-writes>
+                            the reply step of a server worker with large echoed header values (FV.Recv5)
+
 `chunk` is how the harness cuts the stream into reads; the model does not depend on it.
 -/
 import Driver.Util
 import FV.Model.Receivers2
 import FV.Model.Receivers3
 import FV.Model.Receivers4
+import FV.Model.Receivers5
 
 namespace Driver
 open FV FV.Recv2
@@ -74,6 +78,27 @@ def stepReceivers2 (op : String) (args : List String) : Option String :=
         | .reply o => showReplyOutcome o
         | .nilDeref => "panic:other"
         | .panic p => "panic:" ++ panicName p)
+    else none
+  | "big", [entry, limit, sc, _cid, _opid, ws, fs] => do
+    -- the reply step with large echoed header values: write sizes of the attempt(s) as recorded by the harness
+    let natList (x : String) : Option (List (List Nat)) :=
+      if x == "." then some [] else (x.splitOn ";").mapM fun g => (g.splitOn ",").mapM String.toNat?
+    let limit ← limit.toNat?
+    let primary ← natList ws
+    let fallback ← natList fs
+    let sc ← match sc with
+      | "r" => some Recv5.Scenario.reply
+      | "e" | "a" => some Recv5.Scenario.error
+      | "u" => some Recv5.Scenario.unknown
+      | _ => none
+    let pub (o : Option Nat) : String := match o with | none => "published=none" | some n => s!"published={n}"
+    if entry == "n1" || entry == "n4" then
+      pure (pub (Recv5.published (Recv5.replyStep 1048576 sc primary fallback)))
+    else if entry == "ss" then
+      pure (pub (Recv5.published (Recv5.replyStep 0 sc primary fallback)))
+    else if entry == "ht" then
+      let r := Recv5.httpReply limit sc primary fallback
+      pure s!"status={r.1} {pub r.2}"
     else none
   | _, _ => none
 
